@@ -223,6 +223,102 @@ def c07_slices(tier):
 C07_FATAL = {"dkg1:ok", "dkg2:ok", "dkg3:ok", "dkg3:kp", "dkg3:pkp", "dkg2:r2", "dkg2:own", "commit:ok", "sign:ok",
              "aggregate:ok", "verify:ok", "verify:roundtrip_ok", "*:panic"}
 
+# ------------------------------------------------------------------------ C08
+C08_INV = ["InvNoSilentAccept", "InvCulprits", "InvCaught", "Emit"]
+ALLFAULTS = ('{"none","r1field","r1len","r1swap","r1own","r1unknown","r1missing","r1surplus","r1late",'
+             '"r2delta","r2route","r2own","r2unknown","r2missing","r2surplus"}')
+
+
+def c08_slices(tier):
+    th = tier == "thorough"
+    sl = []
+    # A: every (receiver, sender) pair x every fault kind x every field x every wrong value
+    sl.append(dict(name="A_all_faults", module="C08", invariants=C08_INV, consts=consts(
+        7, Shapes="{<<3,2>>}", IdSets="{{2,3,5}}", A0Choices="{3,6}" if th else "{3}", CoeffChoices="{5,0}",
+        KChoices="{2}", Deltas="1..6", Faults=ALLFAULTS, DomHDKG="{0,4,5}" if th else "{4,5}", EMIT="TRUE")))
+    # B: shape slice n = 4, t = 3 (and t = 4): last sender, own id largest / smallest
+    sl.append(dict(name="B_shape_n4", module="C08", invariants=C08_INV, consts=consts(
+        11, Shapes="{<<4,3>>, <<4,4>>}" if th else "{<<4,3>>}", IdSets="{{1,2,3,4}, {2,5,7,10}}", A0Choices="{7}",
+        CoeffChoices="{3}", KChoices="{2}", Deltas="{1,10}", Faults=ALLFAULTS, DomHDKG="{4}", EMIT="TRUE")))
+    return sl
+
+
+C08_FATAL = {"dkg2:ok", "dkg3:ok", "dkg2:culprits", "dkg3:culprits", "dkg3:kp", "dkg3:pkp", "dkg1:ok", "*:panic"}
+
+# ------------------------------------------------------------------------ C09
+C09_INV = ["InvConsistent", "InvFunctionOfR1", "InvAcceptedShares", "InvGenSound", "Emit"]
+
+
+def fn(d):
+    """python dict -> TLA+ function literal"""
+    return "(" + " @@ ".join("%s :> %s" % (k, v) for k, v in d.items()) + ")"
+
+
+def seq(xs):
+    return "<<" + ",".join(str(x) for x in xs) + ">>"
+
+
+def c09_slices(tier):
+    th = tier == "thorough"
+    sl = []
+    polys = [
+        ("n3t2", 7, (3, 2), [2, 3, 5], {2: [3, 5], 3: [1, 0], 5: [6, 2]}, {2: [4, 1], 3: [2, 2], 5: [5, 6]}),
+        ("n3t3", 7, (3, 3), [1, 4, 6], {1: [3, 5, 1], 4: [1, 0, 2], 6: [6, 2, 2]}, {1: [4, 1, 0], 4: [2, 2, 6], 6: [5, 6, 3]}),
+    ]
+    if th:
+        polys += [
+            ("n3t2b", 11, (3, 2), [1, 2, 3], {1: [3, 5], 2: [1, 7], 3: [6, 2]}, {1: [4, 1], 2: [9, 2], 3: [5, 6]}),
+            ("n3t2c", 7, (3, 2), [2, 3, 5], {2: [3, 5], 3: [3, 5], 5: [6, 2]}, {2: [3, 5], 3: [2, 2], 5: [6, 3]}),
+        ]
+    for name, q, (n, t), ids, pa, pb in polys:
+        sl.append(dict(name="A_" + name, module="C09", invariants=C09_INV, consts=consts(
+            q, Shape="<<%d,%d>>" % (n, t), Ids=tla_set(ids), Who=tla_set(ids),
+            PolyA=fn({k: seq(v) for k, v in pa.items()}), PolyB=fn({k: seq(v) for k, v in pb.items()}),
+            KA="2", KB="3", DomHDKG="{4}", EMIT="TRUE")))
+    # n = 4: one participant under test (the fillings grow as 3^3 * 3^3 * 13^3)
+    if th:
+        sl.append(dict(name="B_n4t3", module="C09", invariants=C09_INV, timeout=6000, xmx="24g", consts=consts(
+            11, Shape="<<4,3>>", Ids="{1,2,3,4}", Who="{4}",
+            PolyA=fn({1: seq([3, 5, 1]), 2: seq([1, 7, 0]), 3: seq([6, 2, 9]), 4: seq([2, 2, 2])}),
+            PolyB=fn({1: seq([4, 1, 1]), 2: seq([9, 2, 3]), 3: seq([5, 6, 0]), 4: seq([8, 1, 5])}),
+            KA="2", KB="3", DomHDKG="{4}", EMIT="TRUE")))
+    return sl
+
+
+C09_FATAL = {"dkg2:ok", "dkg3:ok", "dkg3:kp", "dkg3:pkp", "dkg1:ok", "*:panic"}
+
+# ------------------------------------------------------------------------ C10
+C10_INV = ["InvRelinked", "InvSameSecret", "InvRefreshOk", "InvSigning", "InvSigning2", "InvVerify", "InvRejected", "Emit"]
+ALLSCEN = '{"ok","small","unknown","tchange","nonzero"}'
+
+
+def c10_slices(tier):
+    th = tier == "thorough"
+    base = dict(RandChoices="{1}", Msg="<<104,105>>", DomH3="{2,5}", DomH1="{1,5}", DomH2="{3}", DomHDKG="{4}",
+                KChoices="{2}", EMIT="TRUE")
+    sl = []
+    # A: every remaining set, both procedures, all scenarios, every old/new mix
+    sl.append(dict(name="A_sets_mixes", module="C10", invariants=C10_INV, consts=consts(
+        7, Shapes="{<<3,2>>}", IdSets="{{2,3,5}}", KeyChoices="{3}", CoeffChoices="{5}", Procs='{"dealer","dkg"}',
+        Scenarios=ALLSCEN, RCoeffChoices="{0,1,4}" if th else "{1,4}", Rounds="1", MaxExtra="1", **base)))
+    # B: every refreshing polynomial of the dealer variant for every original polynomial
+    sl.append(dict(name="B_dealer_values", module="C10", invariants=C10_INV, consts=consts(
+        7, Shapes="{<<3,2>>}", IdSets="{{2,3,5}}", KeyChoices="1..6" if th else "{1,6}", CoeffChoices=ZQ(7),
+        Procs='{"dealer"}', Scenarios='{"ok"}', RCoeffChoices=ZQ(7), Rounds="1", MaxExtra="0",
+        **dict(base, DomH3="{2}", DomH1="{5}"))))
+    # C: two consecutive refreshes, mixed procedures; shape n = 4, t = 3 with one participant removed
+    sl.append(dict(name="C_two_rounds", module="C10", invariants=C10_INV, consts=consts(
+        11, Shapes="{<<4,3>>}", IdSets="{{1,2,3,4}, {2,5,7,10}}", KeyChoices="{7}", CoeffChoices="{3}",
+        Procs='{"dealer","dkg"}', Scenarios='{"ok"}', RCoeffChoices="{2}", Rounds="2", MaxExtra="1",
+        **dict(base, DomH3="{4}", DomH1="{3}"))))
+    return sl
+
+
+C10_FATAL = {"refresh_shares:ok", "refresh_shares:pkp", "refresh_shares:shares", "refresh_share:ok",
+             "refresh_share:id", "refresh_share:share", "refresh_share:vs", "refresh_share:vk", "refresh_share:min",
+             "dkg1:ok", "dkg2:ok", "dkg3:ok", "dkg3:kp", "dkg3:pkp", "sign:ok", "aggregate:ok", "aggregate:culprits",
+             "verify:ok", "*:panic"}
+
 PROPS = {
     "C01": dict(slices=c01_slices, fatal=C01_FATAL, level="model_checking",
                 rule="TLC enumerates every behaviour of the C01 schedule within each slice's constants; "
@@ -251,6 +347,22 @@ PROPS = {
     "C07": dict(slices=c07_slices, fatal=C07_FATAL, level="model_checking",
                 rule="honest three-part DKG for every shape, identifier set and per-participant polynomial within the "
                      "slice constants, followed by a signing session of any >= t participants; replayed on the real library",
+                assumptions=["TLC 1.8.0 and the CommunityModules", "the toy ciphersuite and interpreter in /verif/harness",
+                             "the toy-to-real argument of DESIGN 6.2"]),
+    "C08": dict(slices=c08_slices, fatal=C08_FATAL, level="model_checking",
+                rule="exactly one faulty contribution per behaviour: every (receiver, sender) pair x 15 fault kinds x "
+                     "every field and coefficient x every wrong value in the slice; replayed on the real part2/part3",
+                assumptions=["TLC 1.8.0 and the CommunityModules", "the toy ciphersuite and interpreter in /verif/harness",
+                             "the toy-to-real argument of DESIGN 6.2"]),
+    "C09": dict(slices=c09_slices, fatal=C09_FATAL, level="model_checking",
+                rule="two concurrent DKG runs; for every participant every assignment of {run A, run B, absent} to each "
+                     "round-one slot at part2 and again at part3 and of {(run, addressee)} or absent to each round-two "
+                     "slot is enumerated by TLC and executed on the real part2/part3",
+                assumptions=["TLC 1.8.0 and the CommunityModules", "the toy ciphersuite and interpreter in /verif/harness",
+                             "the toy-to-real argument of DESIGN 6.2"]),
+    "C10": dict(slices=c10_slices, fatal=C10_FATAL, level="model_checking",
+                rule="dealer keys, then one or two refreshes (trusted dealer / distributed) of every remaining set, then a "
+                     "signing attempt with every assignment of stale/fresh shares; rejected-refresh scenarios; replayed on the real library",
                 assumptions=["TLC 1.8.0 and the CommunityModules", "the toy ciphersuite and interpreter in /verif/harness",
                              "the toy-to-real argument of DESIGN 6.2"]),
     "C04": dict(slices=c04_slices, fatal=C04_FATAL, level="model_checking",
